@@ -4,18 +4,21 @@
  *                      uninterpreted function of the value, > 0 for a non-empty array.
  * A-QCRYPTOHASH        the state of a QCryptographicHash is an opaque value; addData(b) maps (state, b) to a new state
  *                      (uninterpreted), adding the empty array changes nothing; result() is a function of the state.
- * A-QIODEVICE          write(b) returns -1 or a number in 0..size(b); read(max) returns an array of at most max(max,0) bytes;
+ * A-QIODEVICE          write(b) returns -1 or a number in 0..size(b); read(max) on a device that still has `avail` bytes returns exactly
+ *                      min(max(max,0), avail) of them (random-access devices: QFile, QBuffer) and avail shrinks by that number;
  *                      both are logged in ghost variables; close() clears the open flag.
  * A-STANZA-ACCESSORS   QXmppStanza/QXmppIq to/from/id/type/error and QXmppIbb{Open,Close,Data}Iq sid/blockSize/payload
  *                      setters and getters store and return the field; a default-constructed IQ has some non-empty id.
- * A-FILEINFO           QXmppTransferFileInfo::size()/hash() are pure getters of the announced size and hash.
+ * A-FILEINFO-SHARED    QXmppTransferFileInfo is its QSharedDataPointer payload held by value (copy-on-write sharing is Qt's and not modelled);
+ *                      size()/hash() themselves are lowered from the real source.
+ * A-PARSEINT           parseInt<T>(s) (QXmppUtils) under the contract it is verified against in units/C01 (parseInt.spec.in): a value
+ *                      iff s is a numeral within the range of T, and then that number.  Vocabulary only: /repo does not use it here.
  * A-JOBLIST            QList<QXmppTransferJob*> iteration visits elements 0..n-1 in order (witness abstraction below). */
-typedef int qbytes;
+/* qbytes (QByteArray as an opaque value) and qdt come from qtmodel/conv.h */
 typedef int qhash;
-typedef struct QIODevice { bool open; } QIODevice;
+typedef struct QIODevice { bool open; long long avail; /* ghost: bytes a reader can still get from the device (>= 0) */ } QIODevice;
 typedef struct QTcpSocket { bool open; } QTcpSocket;
 typedef struct QXmppStanzaError { int type; int condition; } QXmppStanzaError;
 typedef struct QXmppIq { qstr to; qstr from; qstr id; int type; QXmppStanzaError error; } QXmppIq;
-typedef struct QXmppTransferFileInfo { long long size; qbytes hash; } QXmppTransferFileInfo;
 /* QXmppIbb{Open,Close,Data}Iq, QXmppTransferJobPrivate, QXmppTransferManagerPrivate: structs generated on every run from the real
    field lists (vlib.ctx.emit_record in unit.py); the IQ structs get the QXmppIq part as first member `base` */
